@@ -177,6 +177,13 @@ fn typed_column_family<'f, 'm>(typ: &'m scylla_cql_core::frame::response::result
         (Option<i32>, Option<String>), (Option<CqlValue>, Option<CqlValue>, Option<CqlValue>, Option<CqlValue>, Option<CqlValue>),
         ListlikeIterator<CqlValue>, ListlikeIterator<i32>, MapIterator<CqlValue, CqlValue>, MapIterator<String, CqlValue>,
         VectorIterator<CqlValue>, VectorIterator<f32>, Vec<f32>, Vec<f64>, UdtIterator,
+        // the standard wrappers around composite targets (errors of the inner target pass through the wrapper's own handling)
+        Option<(Option<CqlValue>,)>, Option<(Option<CqlValue>, Option<CqlValue>)>, Option<(Option<CqlValue>, Option<CqlValue>, Option<CqlValue>)>,
+        Box<(Option<CqlValue>, Option<CqlValue>)>, std::sync::Arc<(Option<CqlValue>, Option<CqlValue>)>, Option<Box<(Option<i32>, Option<i32>)>>,
+        Option<MaybeEmpty<i32>>, Box<MaybeEmpty<i64>>,
+        Option<Vec<CqlValue>>, Box<Vec<CqlValue>>, std::sync::Arc<Vec<Option<CqlValue>>>, Option<HashMap<String, CqlValue>>, Box<BTreeMap<i32, CqlValue>>,
+        Option<ListlikeIterator<CqlValue>>, Option<MapIterator<CqlValue, CqlValue>>, Option<VectorIterator<CqlValue>>, Option<UdtIterator>,
+        Box<CqlValue>, std::sync::Arc<CqlValue>, Option<Box<String>>, std::sync::Arc<str>, std::borrow::Cow<str>, std::borrow::Cow<[u8]>,
     );
     // lazy iterators must be driven to exercise their element decoding
     if <ListlikeIterator<CqlValue> as scylla_cql_core::deserialize::value::DeserializeValue>::type_check(typ).is_ok() {
